@@ -699,20 +699,29 @@ def mayPanic (pm d : PM Float) (α β : Float) : Bool :=
 signed zeros — only the malformed stream has those). -/
 def leAny (a b : Float) : Bool := a ≤ b || num.tle a b
 
+/-- Count and permutation clauses alone. -/
+def structOk (n ants : Nat) (ts : List (List Nat)) : Bool :=
+  ts.length == 1 + ants && ts.all (isPermFromZero n)
+
 /-- The model's generation for the implementation's tours `ts`: the code-shaped `generate` (last maximal
 trail) if that is what the implementation produced, otherwise the generation whose greedy route takes the
-implementation's choices — accepted only if every one of them is a maximal trail. -/
-def genFor (pm : PM Float) (dist : Nat → Nat → Float) (α β : Float) (n ants : Nat) (ts wits : List (List Nat)) :
-    GenOut :=
+implementation's choices — accepted only if every one of them is a maximal trail.
+Outside the region the property quantifies over (`valid = false`: NaN / negative / infinite trails or
+distances, …) neither the comparison of such trails nor the point at which an illegal weight vector is
+noticed is demanded: any population of permutations from city 0 is accepted there. -/
+def genFor (valid : Bool) (pm : PM Float) (dist : Nat → Nat → Float) (α β : Float) (n ants : Nat)
+    (ts wits : List (List Nat)) : GenOut :=
   let g := generate num pm dist α β n ants wits
+  let fallback : GenOut := if !valid && structOk n ants ts then .tours ts else g
   match g with
   | .tours mts =>
     if mts == ts then g
     else
-      match generateW num leAny pm dist α β n ants (recoverWit n (ts.headD [])) wits with
-      | .tours wts => if wts == ts then .tours wts else g
-      | _ => g
-  | _ => g
+      match generateW num (if valid then leAny else fun _ _ => true) pm dist α β n ants
+          (recoverWit n (ts.headD [])) wits with
+      | .tours wts => if wts == ts then .tours wts else fallback
+      | _ => fallback
+  | _ => fallback
 
 /-- First failing clause of the generation property on `ts` (`-` = all hold). -/
 def genClass (pm : PM Float) (n ants : Nat) (ts : List (List Nat)) (checkGreedy : Bool) : String :=
@@ -754,7 +763,8 @@ def handleGen (args : List Sexp) (impl : Sexp) : Option Verdict := do
   let refused (cls : String) : Option Verdict :=
     -- outside the domain a refusal may be a panic or an `Err`; inside it either one is a violation
     let predicted := (greedyTour num pm n).isNone || (ants > 0 && mayPanic pm d α β)
-    pure (verdict predicted (if valid then cls else "-") (.atom (if predicted then "panic" else "no-panic")) valid)
+    pure (verdict (predicted || !valid) (if valid then cls else "-")
+      (.atom (if predicted then "panic" else "no-panic")) valid)
   match impl with
   | .atom "panic" => refused "panic"
   | .atom "err" => refused "err"
@@ -767,7 +777,7 @@ def handleGen (args : List Sexp) (impl : Sexp) : Option Verdict := do
       | [.list [.atom "depth", dS]] => nat? dS == some 1
       | [] => true
       | _ => false
-    let (agree, model) := match genFor pm (distFn d) α β n ants ts wits with
+    let (agree, model) := match genFor valid pm (distFn d) α β n ants ts wits with
       | .tours mts => (mts == ts, toursToSexp mts)
       | .panic => (false, .atom "panic")
       | .badWitness => (false, .atom "badwitness")
@@ -834,12 +844,13 @@ def judgeStep (i : StepIn) (impl : Sexp) : Option Verdict := do
   | .atom "timeout" => pure (verdict false "timeout" (.atom "-"))
   | .atom "gen-panic" =>
     let predicted := (greedyTour num i.pm n).isNone || (i.ants > 0 && mayPanic i.pm i.d i.α i.β)
-    pure (verdict predicted (if valid then "panic" else "-") (.atom (if predicted then "gen-panic" else "no-panic")) valid)
+    pure (verdict (predicted || !validG) (if valid then "panic" else "-")
+      (.atom (if predicted then "gen-panic" else "no-panic")) valid)
   | .list [.atom "eval-panic", tS, wS] =>
     -- the harness' objective function refuses NaN / -inf tour lengths
     let ts ← natLists? "tours" tS
     let wits ← natLists? "wit" wS
-    let (agree, model) := match genFor i.pm dist i.α i.β n i.ants ts wits with
+    let (agree, model) := match genFor validG i.pm dist i.α i.β n i.ants ts wits with
       | .tours mts => (mts == ts && (mts.map (tourLen dist)).any (fun o => o.isNaN || o == -(1.0 / 0.0)), toursToSexp mts)
       | _ => (false, .atom "-")
     let gc := genClass i.pm n i.ants ts validG
@@ -848,7 +859,7 @@ def judgeStep (i : StepIn) (impl : Sexp) : Option Verdict := do
     let ts ← natLists? "tours" tS
     let wits ← natLists? "wit" wS
     let objs ← floats? (← tagged? "objs" oS)
-    let m := stepOf i.k i.pm dist (genFor i.pm dist i.α i.β n i.ants ts wits)
+    let m := stepOf i.k i.pm dist (genFor validG i.pm dist i.α i.β n i.ants ts wits)
     let agree := match m with
       | .updPanic mts mobjs => mts == ts && listClose mobjs objs
       | _ => false
@@ -859,7 +870,7 @@ def judgeStep (i : StepIn) (impl : Sexp) : Option Verdict := do
     let wits ← natLists? "wit" wS
     let objs ← floats? (← tagged? "objs" oS)
     let pm' ← pm? "pm" pS
-    let m := stepOf i.k i.pm dist (genFor i.pm dist i.α i.β n i.ants ts wits)
+    let m := stepOf i.k i.pm dist (genFor validG i.pm dist i.α i.β n i.ants ts wits)
     let agree := match m with
       | .ok mts mobjs mpm => mts == ts && listClose mobjs objs && (pmClose mpm pm' || updAgree i.k i.pm (mkPop mts mobjs) pm')
       | _ => false
@@ -892,8 +903,25 @@ def handleRun (args : List Sexp) (impl : Sexp) : Option Verdict := do
     pure (verdict (Sexp.beq impl expected) cls expected)
   | _ => none
 
+/-- `(init n default)` ↦ the matrix `AcoGeneration::init` inserts: `n × n`, `default` everywhere. -/
+def handleInit (args : List Sexp) (impl : Sexp) : Option Verdict := do
+  let [nS, vS] := args | none
+  let n ← nat? nS
+  let v ← float? vS
+  let m := PM.new n v
+  match impl with
+  | .list [.atom "ok", pS] =>
+    let pm' ← pm? "pm" pS
+    let same := pm'.dim == m.dim && pm'.inner.length == m.inner.length &&
+      (pm'.inner.zip m.inner).all (fun p => p.1.toBits == p.2.toBits)
+    pure (verdict same (if same then "-" else "init") (pmToSexp m))
+  | .atom "panic" => pure (verdict false "panic" (pmToSexp m))
+  | .atom "err" => pure (verdict false "err" (pmToSexp m))
+  | _ => none
+
 def handleCase (input impl : Sexp) : Option Verdict :=
   match input with
+  | .list (.atom "init" :: args) => handleInit args impl
   | .list (.atom "gen" :: args) => handleGen args impl
   | .list (.atom "upd" :: args) => handleUpd args impl
   | .list [.atom "step", kS, pmS, dS, parS, antsS, _] => do
